@@ -1,18 +1,24 @@
 #!/usr/bin/env python3
-"""tools/keep_benign.py <prop> [<prop> ...]
-copies /tmp/seed/outb_<prop>/refactor_<n>/{patch.diff,notes.md} to /verif/benign/<prop>-<n>/ after checking that the
-patch applies to /repo's HEAD (git apply --check; /repo itself is not modified)"""
+"""tools/keep_benign.py [--root /tmp/seed/outb3_] <prop> [<prop> ...]
+copies <root><prop>/refactor_<n>/{patch.diff,notes.md} to /verif/benign/<prop>-<m>/ (m continues after the entries that
+exist already) after checking that the patch applies to /repo's HEAD (git apply --check; /repo itself is not modified)"""
 import os
 import shutil
 import subprocess
 import sys
 
-for prop in sys.argv[1:]:
-    base = '/tmp/seed/outb_%s' % prop
+args = sys.argv[1:]
+root = '/tmp/seed/outb_'
+if args and args[0] == '--root':
+    root, args = args[1], args[2:]
+for prop in args:
+    base = root + prop
+    have = [int(d.split('-')[1]) for d in os.listdir('/verif/benign') if d.startswith(prop + '-') and d.split('-')[1].isdigit()]
+    offset = max(have) if have else 0
     for d in sorted(os.listdir(base)):
         if not d.startswith('refactor_'):
             continue
-        n = d.split('_')[1]
+        n = str(int(d.split('_')[1]) + offset)
         src = os.path.join(base, d)
         patch = os.path.join(src, 'patch.diff')
         if not os.path.exists(patch) or os.path.getsize(patch) == 0:
